@@ -33,7 +33,7 @@ def run(ctx):
         mode = it % 4
         if mode == 0:
             if it % 8 == 0:
-                (va, vb), unit = impl.scaled_family(ctx, 2, pinv=0.3)
+                (va, vb), unit = impl.scaled_family(ctx, 2, pinv=0.3, crossing=True)
             else:
                 va, vb = impl.leaf_family(ctx, 2, pinv=0.3)
         elif mode == 1:   # arbitrary position on a coarse grid: shared vertices, parallel and collinear edges happen
